@@ -175,10 +175,15 @@ pub fn suite_c18(ctx: &mut Ctx) {
             let maxs = ((ty.n - 2) << ty.es) as i32;
             let (x, cs): (u64, Vec<Vec<u64>>) = if r % 2 == 0 {
                 let x = [1u64, 2, 3, gen::neg(ty.n, 1)][ (r / 2) % 4];
-                let cs = (0..nc).map(|_| {
+                let mut cs: Vec<Vec<u64>> = (0..nc).map(|_| {
                     let v = gen::from_scale(ty.n, ty.es, ctx.rng.gen_range(-maxs..-maxs / 2 + 8), ctx.rng.gen::<u64>());
                     vec![if ctx.rng.gen::<bool>() { gen::neg(ty.n, v) } else { v }]
                 }).collect();
+                // without a constant term the sum consists of x-multiples only: differences of tiny terms
+                // (borrows and carries between the lowest limbs) become the whole result
+                if (r / 2) % 2 == 0 {
+                    cs[nc - 1] = vec![0];
+                }
                 (x, cs)
             } else {
                 // the constant coefficient is big; (next coefficient) * x is exactly half an ulp of it (a tie);
